@@ -174,11 +174,16 @@ class Recorder:
             ll += [BAD + 2] * max(0, len(log_l) - len(points))
             if blobs is None:
                 bb = list(p)
+            elif np.ndim(blobs) == 0:
+                bb = [BAD + 6]          # the blob array lost its row axis
             else:
                 bb = []
                 for j in range(len(blobs)):
                     ser = blobs[j]
                     try:
+                        if self.lk.blob == 'float':     # blob = 2 * x[0] of its own point
+                            bb.append(p[j] if j < len(points) and float(ser) == float(points[j][0] * 2.0) else BAD + 3)
+                            continue
                         ser = int(ser[0]) if getattr(ser, 'shape', ()) != () or isinstance(ser, (tuple, np.void)) else int(ser)
                         bb.append(self.rows.get(serial_row[ser], BAD + 3))
                     except Exception:
